@@ -38,18 +38,56 @@ def run(ctx):
     ctx.clause = ("a declaration is exposed in the interface only with a public symbol attached, and the list of symbols "
                   "not referenced by debug info is the complement, over the corpus' own symbol-table filter, of the symbols "
                   "(and aliases) of the exposed declarations")
-    ctx.rules = ["R-EXPGATE", "R-PUBSYM", "R-EXPORTEDPRED", "R-UNREF", "R-OWNSYMKEY"]
+    ctx.rules = ["R-EXPGATE", "R-PUBSYM", "R-EXPORTEDPRED", "R-UNREF", "R-OWNSYMKEY", "R-ADDRTOTAL"]
     P = ctx.program(UNITS)
     check_expgate(ctx, P)
     check_pubsym(ctx, P)
     check_exportedpred(ctx, P)
     check_unref(ctx, P)
     check_ownsymkey(ctx, P)
+    check_addrtotal(ctx, P)
     ctx.assume("which declaration the DWARF (or ABIXML) describes for which address is a runtime association and is not "
                "decided; src/abg-ctf-reader.cc is not part of this build and is not analysed")
 
 
 # ------------------------------------------------------------------------------------------------ R-EXPGATE
+def check_addrtotal(ctx, P):
+    """R-ADDRTOTAL: a declaration gets its symbol through its address (read_context::get_{function,variable}_address, then
+    the address -> symbol maps of the symtab).  The two getters translate what the DIE says; they must not *judge* the
+    value: in the world where the DIE yields an address (die_location_address / die_address_attribute /
+    get_first_exported_fn_address_from_DW_AT_ranges answer true) every path returns true.  An address that looks odd - 0 is
+    the offset of the first thread-local variable, and the address of the first variable of a relocatable file - still
+    designates a symbol; rejecting it drops the declaration of an exported variable, whose symbol is then listed as not
+    referenced by debug info."""
+    SOURCES = ("die_location_address", "die_address_attribute", "get_first_exported_fn_address_from_DW_AT_ranges")
+    n = 0
+    for name in ("get_variable_address", "get_function_address"):
+        fs = [f for f in P.all_funcs() if f.n == name and (f.cls or "").endswith("dwarf_reader::read_context") and not f.dep and f.cfg() is not None]
+        if len(fs) != 1:
+            raise AnalysisBroken("anchor vanished: dwarf_reader::read_context::%s" % name)
+        f = fs[0]
+        ctx.analysed(f)
+        srcs = [x for x in f.nodes() if x["k"] in ("CallExpr", "CXXMemberCallExpr") and (f.decl(x) or {}).get("n") in SOURCES]
+        if not srcs:
+            raise AnalysisBroken("anchor vanished: %s no longer reads the address from the DIE" % name)
+
+        def atom(e, f=f):
+            if e["k"] in ("CallExpr", "CXXMemberCallExpr") and (f.decl(e) or {}).get("n") in SOURCES:
+                return [True]
+            return None
+        track = {x.get("d") for x in f.nodes() if x["k"] == "VarDecl" and (f.type(x) or {}).get("c", "").replace("const ", "") in ("bool", "_Bool")}
+        rets = World(f, atom).run_env(track)
+        vals = set()
+        for v in rets:
+            vals |= {True, False} if v == ANY else {bool(v)}
+        n += 1
+        ctx.ob("R-ADDRTOTAL", "read_context::%s hands on every address the DIE yields" % name, vals == {True}, f.loc(),
+               "in the world where %s succeed(s), every path returns true" % "/".join(sorted({(f.decl(x) or {}).get("n") for x in srcs})) if vals == {True} else
+               "although the DIE yields an address, a path returns false: the getter rejects an address because of its value, the "
+               "declaration gets no symbol and the exported symbol is reported as not referenced by debug info")
+    ctx.floor("R-ADDRTOTAL", "address getters of the DWARF reader", n, 2)
+
+
 def check_expgate(ctx, P):
     n = 0
     adders = {"add_fn_to_exported": "fns_", "add_var_to_exported": "vars_"}
